@@ -31,7 +31,9 @@ LitLexemes == << S("i5"), S("i-5"), S("i0"), S("i1701411834604692317316873037158
                  Q \o <<233, 92, 34, 20013, 92, 92>> \o Q, Q \o S("2015-07-30T03:26:13Z") \o Q, Q \o S("1.5") \o Q,
                  Q \o <<233, 92, 92, 110, 111>> \o Q, Q \o <<20013, 128512, 92, 92, 116, 92, 34>> \o Q,
                  \* carriage return and line feed, escaped and raw, together and apart
-                 Q \o S("a\\r\\nb") \o Q, Q \o <<97, 13, 10, 98>> \o Q, Q \o S("\\r") \o Q, Q \o <<10, 13>> \o Q, Q \o S("\\n\\r\\n") \o Q >>
+                 Q \o S("a\\r\\nb") \o Q, Q \o <<97, 13, 10, 98>> \o Q, Q \o S("\\r") \o Q, Q \o <<10, 13>> \o Q, Q \o S("\\n\\r\\n") \o Q,
+                 \* a line of a string constant that looks like a comment line
+                 Q \o S("see") \o <<10>> \o S("// note") \o <<10>> \o S("end") \o Q, Q \o S("a") \o <<10>> \o S("  //") \o Q >>
 Leaf(lexeme) == Val(Denote(Lex(lexeme).toks[1]).v)
 
 A == Ref(S("a"))
@@ -39,12 +41,13 @@ UnK == {"not", "neg", "some", "none", "int", "float", "dec", "datetime", "durati
         "floor", "round", "fract", "year", "month", "week", "day", "hour", "minute", "second"}
 BinK == {"and", "or", "eq", "neq", "gt", "lt", "gte", "lte", "add", "sub", "mult", "div", "rem", "bitand", "bitor", "bitxor", "contains"}
 
+SibK == {"bitand", "bitor", "bitxor", "contains", "add", "and", "eq", "lt"}       \* (the bracket-less operators and one of each other family)
 \* every node kind with x in every child position (the other children are the reference `a`)
 Wraps(x) ==
   {Un(k, x) : k \in UnK}
   \cup {Bin(k, x, A) : k \in BinK} \cup {Bin(k, A, x) : k \in BinK}
   \* ... and with a sibling that is itself compound (its rendering begins or ends with a bracket)
-  \cup {Bin(k, x, Call(S("fn"), A)) : k \in BinK} \cup {Bin(k, Idx(A, FieldI(S("k"))), x) : k \in BinK}
+  \cup {Bin(k, x, Call(S("fn"), A)) : k \in SibK} \cup {Bin(k, Idx(A, FieldI(S("k"))), x) : k \in SibK}
   \cup {VecE(<<x, Val(St("z"))>>), Bin("eq", x, Val(St("z"))), MapE(<< <<S("j"), x>>, <<S("k"), Val(St("z"))>> >>)}
   \cup {If(x, A, A), If(A, x, A), If(A, A, x), Call(S("fn"), x), Idx(x, FieldI(S("k"))), Idx(x, PosI(0)), Idx(x, PosI(12)), Idx(x, PosI(5)),
          Idx(x, FieldI(S("e5"))), Idx(x, FieldI(S("f"))),
